@@ -54,7 +54,8 @@ def _extra(spec):
 
 def _history(fe):
     nm = st.lists(st.sampled_from(ALPHA), min_size=1, max_size=2)
-    express = st.fixed_dictionaries({'op': st.just('express'), 'name': nm, 'cbp': st.booleans(), 'life': st.sampled_from([50, 4000]),
+    # (an Interest may consist of nothing but the implicit digest of the Data it asks for)
+    express = st.fixed_dictionaries({'op': st.just('express'), 'name': st.one_of(nm, nm, nm, nm, st.just([])), 'cbp': st.booleans(), 'life': st.sampled_from([50, 4000]),
                                      'digest': st.sampled_from([False, False, True])})
     data = st.fixed_dictionaries({'op': st.just('data'), 'of': st.integers(0, 5), 'ext': st.lists(st.sampled_from(ALPHA), max_size=1),
                                   'env': _envspec(), 'token': st.one_of(st.none(), st.binary(max_size=8).map(bytes.hex))})
@@ -71,7 +72,10 @@ def _history(fe):
                                       'env': _envspec(), 'params': st.sampled_from([False, False, True]),
                                       'life': st.sampled_from([4000, 4000, 4000, 50, 10])})
     reply = st.fixed_dictionaries({'op': st.just('reply'), 'k': st.integers(0, 7),
-                                   'size': st.sampled_from([0, 0, 0, 300, 4000, 4096, 4200, 8800])})
+                                   'size': st.sampled_from([0, 0, 0, 300, 4000, 4096, 4200, 8800]),
+                                   # the reply bytes are the application's business - e.g. a relay hands on what it received from
+                                   # upstream, envelope (with the upstream's token) included
+                                   'enveloped': st.sampled_from([None, None, None, None, '', 'aa', '0102030405060708'])})
     adv = st.fixed_dictionaries({'op': st.just('adv'), 'ms': st.sampled_from([0, 1, 10, 49, 51, 200])})
     ops = [express, data, data, nack, nack, frag, interest, interest, adv]
     if fe == 'v2':
@@ -132,6 +136,8 @@ def _run(fe, ops, full, r, flags, trace):
             if k == 'express':
                 name = [net.comp(x) for x in op['name']]
                 iname = name
+                if not name and not op.get('digest'):
+                    continue
                 if op.get('digest'):
                     # Interest naming its Data by implicit digest (the Data this history sends for that name with no extension)
                     import hashlib
@@ -215,6 +221,9 @@ def _run(fe, ops, full, r, flags, trace):
                 data = net.data_wire(c['name'], content=b'r%d' % c['n'] + b'.' * op.get('size', 0))
                 if op.get('size', 0) >= 4096:
                     flags.add('big-reply')
+                if op.get('enveloped') is not None:
+                    data = net.lp_wrap(data, pit_token=bytes.fromhex(op['enveloped']))
+                    flags.add('reply-is-an-envelope')
                 c['n'] += 1
                 before = len(sim.face.sent)
                 try:
@@ -310,7 +319,7 @@ def run_case(case):
         if a[part] != b[part]:
             r.bad(f'C10/{fe}/envelope-not-transparent/{part}', f'minimal: {str(a[part])[:250]}  wrapped: {str(b[part])[:250]}')
             break
-    nontrivial = bool(flags & {'multi-header', 'big-reason', 'out-of-order-token', 'implicit-digest', 'big-reply'})
+    nontrivial = bool(flags & {'multi-header', 'big-reason', 'out-of-order-token', 'implicit-digest', 'big-reply', 'reply-is-an-envelope'})
     r.key = (fe, ''.join(trace)[:24], tuple(sorted(flags))) if nontrivial else None
     r.classes = (fe,) + tuple(sorted(flags))
     return r
